@@ -119,14 +119,14 @@ CHECKS = {
                      "TLC checks identity and classifies rejections by whether tile-local and absolute geometry coincide.",
                 note=A_CONTRACT + "; most grids fall under a known finding (encoder ignores the tile origin)"),
 
-    "C08": dict(engine="robust", level="fault_enumeration", design_ref="DESIGN.md 7/C08",
+    "C08": dict(engine="robust", level="exploration", design_ref="DESIGN.md 7/C08",
                 technique="TLC-planned grammar-aware stream corruption replayed into every decoder; TLC trace validation of outcomes",
                 text="38 valid template streams (every codec, package-level and registered-codec entry points, third-party HTJ2K "
                      "fixtures); TLC plans single-byte edits of every header byte x a value set, body bytes, every truncation point, "
                      "random tails, double edits, FrameInfo mismatches; each decode runs under recover() in a child; RobustTrace accepts "
                      "only ok/error outcomes.",
                 note="grammar-directed enumeration without coverage feedback; deep decoder states only via templates"),
-    "C09": dict(engine="robust", level="fault_enumeration", design_ref="DESIGN.md 7/C09",
+    "C09": dict(engine="robust", level="exploration", design_ref="DESIGN.md 7/C09",
                 technique="same plan as C08; TLC computes the declared size from the edited header and bounds time / peak memory",
                 text="Same edit plan; the trace carries wall time, allocation and (second pass) VmHWM peak; RobustTrace computes the "
                      "size the edited stream declares (saturating arithmetic) and rejects time > budget or memory out of proportion "
